@@ -33,6 +33,7 @@ structure WItem where
   id : Nat
   enterRaises : Option Nat := none       -- `__enter__` raises this class
   suppress : Bool := false               -- `__exit__` returns a true value
+  bindRaises : Option Nat := none        -- storing the `as` target raises this class (e.g. `as (a, b)` of a non-iterable)
 deriving Repr, DecidableEq, BEq
 
 mutual
@@ -115,7 +116,10 @@ def enterAll : List WItem → World → Option Exc × World
     let w1 := w.emit (.enter m.id)
     match m.enterRaises with
     | some c => (some { cls := c }, w1)
-    | none => enterAll ms w1
+    | none =>
+      match m.bindRaises with
+      | some c => (some { cls := c }, w1)
+      | none => enterAll ms w1
 
 /-- `for ctx in reversed(ctx_list): ret = exit(...); exit_ok = exit_ok and ret` – ALL managers, same exc info -/
 def exitAll (items : List WItem) (e : Option Nat) (w : World) : Bool × World :=
@@ -172,9 +176,13 @@ def exec (cfg : Cfg) (sub : Nat → Nat → Bool) : Nat → Option Exc → Stmt 
         match m.enterRaises with
         | some c => (.exc { cls := c }, w1)
         | none =>
-          let r := match ms with
-            | [] => stmts cfg sub n h b w1
-            | _ :: _ => exec cfg sub n h (.with_ ms b) w1
+          -- the `as` target is stored inside the protected region: a failing store reaches `__exit__`
+          let r := match m.bindRaises with
+            | some c => (.exc { cls := c }, w1)
+            | none =>
+              match ms with
+              | [] => stmts cfg sub n h b w1
+              | _ :: _ => exec cfg sub n h (.with_ ms b) w1
           withFinish [m] r
     else
       let w1 := initAll items w
